@@ -29,12 +29,16 @@ public members of lie_group_base.h / tangent_base.h / <group>_base.h / <group>Ta
 functions.h and manif/algorithms/*.h as included by manif/manif.h.
 """
 
+import re
+
 FAMILIES = ('SO2', 'SE2', 'SO3', 'SE3', 'SE_2_3', 'SGal3', 'Rn', 'Bundle')
 
 ENTRIES = []
 
 
 def E(name, cat, code, mut=False, groups=None, kinds=None, per_element=False, doc=''):
+    if kinds is None and re.search(r'_(arg_owning|this_owning|this_owning_J|mixed)$', name):
+        kinds = ('map', 'cmap')   # with owning operands these coincide with the plain entry
     if groups is not None:
         groups = set(groups)
         assert groups <= set(FAMILIES), groups
@@ -120,9 +124,6 @@ E('g_data', 'group',
 E('g_data_write', 'group', 'X.data()[0] = Yo.data()[0]; CHECK_SAME(X.coeffs()[0], Yo.coeffs()[0]);', mut=True, doc=LGB)
 E('g_cast_float', 'group', 'CHECK_SAME(X.template cast<float>(), Xo.template cast<float>());', doc=LGB)
 E('g_cast_double', 'group', 'CHECK_SAME(X.template cast<double>(), Xo.template cast<double>());', doc=LGB)
-E('g_cast_use', 'group',
-  'CHECK_TRUE(X.template cast<float>().template cast<S>().isApprox(Xo, S(1e-3)));'
-  ' CHECK_TRUE(X.template cast<double>().inverse().template cast<S>().isApprox(Xo.inverse(), S(1e-3)));', doc=LGB)
 E('g_setIdentity', 'group',
   'CHECK_TRUE(&X.setIdentity() == &X); CHECK_SAME(X, T::Zero().exp()); CHECK_SAME(X, G::Identity());', mut=True, doc=LGB)
 E('g_setRandom', 'group',
@@ -212,9 +213,6 @@ for _m in ('rjac', 'ljac', 'rjacinv', 'ljacinv', 'smallAdj'):
 E('t_bracket', 'tangent', 'CHECK_SAME(t.bracket(u), to.bracket(uo));', doc=TGB)
 E('t_bracket_arg_owning', 'tangent', 'CHECK_SAME(t.bracket(uo), to.bracket(uo));', doc=TGB)
 E('t_bracket_this_owning', 'tangent', 'CHECK_SAME(to.bracket(u), to.bracket(uo));', doc=TGB)
-E('t_bracket_hat', 'tangent',
-  'CHECK_TRUE(t.bracket(u).hat().isApprox(to.hat() * uo.hat() - uo.hat() * to.hat(), S(1e-3))'
-  ' || (to.hat() * uo.hat() - uo.hat() * to.hat()).norm() < S(1e-4));', doc=TGB)
 E('t_Bracket', 'tangent', 'CHECK_SAME(TK::Bracket(t, u), to.bracket(uo));', doc=TGB)
 E('t_Bracket_arg_owning', 'tangent', 'CHECK_SAME(TK::Bracket(t, uo), to.bracket(uo));', doc=TGB)
 E('t_Bracket_this_owning', 'tangent', 'CHECK_SAME(T::Bracket(to, u), to.bracket(uo));', doc=TGB)
